@@ -132,7 +132,7 @@ PROPS['C03'] = dict(
          'PUBREL exactly once, in release-list (= PUBREC) order, after the owed acknowledgements and before the retained publishes, '
          'on any transport (C03_replay_layout, C03_pubrels_replayed_in_order).')
 PROPS['C05'] = dict(
-    sess=[('sess_c05', 400, 5000)],
+    sess=[('sess_c05', 400, 5000), ('py_c05r', 150, 1500)],
     events='w', state=['sp', 'gen', 'ret', 'rel', 'srv', 'h', 'cid', 'conn', 'ev', 'pid'],
     monitors=[M.mon_c05, M.mon_c05_replay, M.mon_c02],
     title='fresh vs. resumed broker session is mirrored in local state and replay',
@@ -306,7 +306,7 @@ PROPS['C04'] = dict(
          'non-vacuity example is computed), model, extraction, harness, Python reference receiver and validator. No axioms.')
 
 PROPS['C12'] = dict(
-    sess=[('py_c12', 300, 5000), ('sweep_c12', 400, 8000), ('sess_c12', 200, 4000), ('py_edges', 200, 3000)],
+    sess=[('py_c12', 300, 5000), ('sweep_c12', 400, 8000), ('sess_c12', 200, 4000), ('py_edges', 200, 3000), ('py_c12p', 150, 1500), ('py_c05r', 100, 1000)],
     events='wrf', state=['cap', 'used', 'ret', 'ctl', 'rel', 'rb', 'pl', 'np', 'pt', 'resumed', 'sp', 'conn', 'live', 'cp', 'cid', 'quota', 'maxquota'],
     monitors=[M.mon_c12, M.mon_panic],
     title='the session can always be reconnected, whatever happened before',
